@@ -81,6 +81,35 @@ CLAIMS: dict[str, tuple[str, str, str, str]] = {
         "Lean 4 proof (structural induction on nested tokens; functional induction on the tree builder) + differential correspondence",
         "§6 C15",
     ),
+    "C17": (
+        "FULL on the model for: line endings (crlf_same, cr_same, normalize_mixed: every mixture of LF/CRLF/CR "
+        "spellings normalises like the LF source), normalize_clean (no CR/NUL survives), nul_like_fffd, "
+        "indent_cols, marker_tab (+ marker_tab_spellings: the block-quote marker arithmetic depends only on "
+        "the absolute column the blank run reaches, at any nesting depth). PARTIAL: the full tab congruence "
+        "(every rule depends on a prefix spelling only through getLines; list-marker arithmetic) is not a "
+        "theorem and is decided by the oracle, exhaustive over the property's constructed family. That equal "
+        "normalize results give equal parses rests on normalize being the first core rule (pinned by T1). "
+        "Tie: normalize vs the real rule; per-call refinement trace of the live block-quote rule (entry/exit "
+        "records of every quoted line) vs quoteOffsets.",
+        NOTE,
+        "Lean 4 proof (string/column arithmetic lemmas) + refinement trace of the live rule + exhaustive tab family",
+        "§6 C17",
+    ),
+    "C04": (
+        "FULL on the renderer model, for every token stream: escapeHtml_eq/escapeHtml_units/escapeHtml_no_meta "
+        "(escaped text is a sequence of non-metacharacters and the four entities), render_pieces, no_raw "
+        "(without html_block/html_inline tokens no piece is raw: every input-derived character is escaped), "
+        "vocab/vocab_fixed (tag and attribute names come only from token.tag / attribute keys, never from "
+        "content), and the T1 obligations table_tags/table_keys over the vocabulary scanned from the current "
+        "source. PARTIAL: 'html off => the parser emits no html token and only vocabulary tags' is carried by "
+        "T1 + its dynamic twin, not by a parser theorem; proper nesting of output tags is decided by the "
+        "output lexer on the implementation (incl. a bounded-exhaustive delimiter sweep), not proved. Tie: "
+        "renderer model vs real RendererHTML on generated streams/configurations, escapeHtml exhaustively per "
+        "character.",
+        NOTE + "Fence language extraction (unescapeAll/strip/split) is an external parameter of the model.",
+        "Lean 4 proof (renderer as pieces, escape lemma, vocabulary lifting) + differential rendering + output lexer",
+        "§6 C04",
+    ),
 }
 
 PENDING_REASON = "check under construction in this session (Lean model + theorems not yet committed); not claimed until its check exists"
